@@ -214,3 +214,29 @@ Definition call_wf (x : call) : Prop :=
   | CSetSlice _ _ ms => wf ms
   | _ => True
   end.
+
+(* D6: a summary that is marked valid equals its recomputation *)
+Definition sums_ok (c : cstate) : Prop :=
+  (forall l, s_qubits (sm c) = Some l -> l = all_qubits_of (moms c)) /\
+  (forall l, s_frozen (sm c) = Some l -> l = moms c) /\
+  (forall b, s_ismeas (sm c) = Some b -> b = is_measurement_of (moms c)) /\
+  (forall b, s_isparam (sm c) = Some b -> b = is_parameterized_of (moms c)) /\
+  (forall l, s_pnames (sm c) = Some l -> l = parameter_names_of (moms c)).
+
+(* an exception that escapes insert / insert_into_range after part of the work was done
+   (Circuit._mutated is then never reached) *)
+Definition is_err {A} (r : A + err) : bool := match r with inr _ => true | inl _ => false end.
+Definition raised_midway (c : cstate) (x : call) : bool :=
+  match x with
+  | CInsert i its s => is_err (snd (insert c i its s))
+  | CAppend its s => is_err (snd (append c its s))
+  | CInsertIntoRange its s e =>
+      (0 <=? s) && (s <=? e) && (e <=? Z.of_nat (length (moms c))) && is_err (snd (insert_into_range c its s e))
+  | _ => false
+  end.
+Fixpoint clean (c : cstate) (h : list call) : Prop :=
+  match h with
+  | [] => True
+  | x :: r => raised_midway c x = false /\ clean (fst (step c x)) r
+  end.
+Definition not_with_tags (x : call) : Prop := match x with CWithTags => False | _ => True end.
